@@ -109,15 +109,15 @@ class Modules(productmd.common.MetadataBase):
         version = uid_dict["version"]
         context = uid_dict["context"]
 
+        for param_name, param in {"variant": variant, "koji_tag": koji_tag, "modulemd_path": modulemd_path}.items():
+            if not param:
+                raise ValueError("Non-empty '%s' is expected" % param_name)
+
         if modulemd_path.startswith("/"):
             raise ValueError("Relative path expected: %s" % modulemd_path)
 
         if not koji_tag:
             raise ValueError("Non-empty 'koji_tag' is expected")
-
-        for param_name, param in {"variant": variant, "koji_tag": koji_tag, "modulemd_path": modulemd_path}.items():
-            if not param:
-                raise ValueError("Non-empty '%s' is expected" % param_name)
 
         if not isinstance(rpms, (list, tuple)):
             raise ValueError("Wrong type of 'rpms'")
